@@ -45,3 +45,7 @@ open Lungo.C15
 #print axioms Lungo.C15.inv_txn_dropIndex
 #print axioms Lungo.C15.inv_txn_dropIndexByKey
 #print axioms Lungo.C15.inv_txn_expire
+#print axioms inv_runCall
+#print axioms sgood_false_iff
+#print axioms inv_sinit
+#print axioms inv_sstep
